@@ -100,6 +100,26 @@ var fnSpecs = []groupSpec{
 		Skip: []string{"defer pool.ReleaseBuf(h)", "if err != nil { return nil, err }", "if err != nil { pool.ReleaseBuf(b) return nil, err }"},
 		Doc:  "; io.ReadFull is Go.readFull on a chunked stream; its error propagates (the two `if err != nil` blocks)",
 	}},
+	{Group: "Framing", fnSpec: fnSpec{
+		File: "pkg/pool/msg_buf.go", Func: "PackTCPBuffer",
+		Lean: "packTCPBuffer", Params: "(wire : Bytes)", Ret: "Option Bytes",
+		Vars: map[string]ty{"wire": tBytes},
+		Expr: map[string]lx{"dns.MaxMsgSize": constLx(big.NewInt(65535))},
+		Stmt: map[string]string{
+			`return nil, fmt.Errorf("dns payload size %d is too large", l)`: "return none",
+			"return msgBuf, nil": "return some msgBuf",
+		},
+		Skip: []string{"packBuf := GetBuf(packBufferSize)", "defer ReleaseBuf(packBuf)", "wire, err := m.PackBuffer((*packBuf)[2:])", "if err != nil { return nil, err }"},
+		Doc:  "; `wire` = what m.PackBuffer returned (miekg/dns, not modelled; a pack error propagates: the skipped `if err != nil`); result = the framed buffer handed to the caller, none = size error",
+	}},
+	{Group: "Framing", fnSpec: fnSpec{
+		File: "pkg/pool/msg_buf.go", Func: "PackBuffer",
+		Lean: "packBuffer", Params: "(wire : Bytes)", Ret: "Bytes",
+		Vars: map[string]ty{"wire": tBytes},
+		Stmt: map[string]string{"return msgBuf, nil": "return msgBuf"},
+		Skip: []string{"packBuf := GetBuf(packBufferSize)", "defer ReleaseBuf(packBuf)", "wire, err := m.PackBuffer(*packBuf)", "if err != nil { return nil, err }"},
+		Doc:  "; `wire` = what m.PackBuffer returned; result = the private copy handed to the caller (datagram transports: no header)",
+	}},
 	// ---------------------------------------------------------------- C09: the counter updates of one connection
 	{Group: "Conn", fnSpec: fnSpec{
 		File: "pkg/upstream/transport/conn_traditional.go", Func: "ReserveNewQuery", Recv: "TraditionalDnsConn",
@@ -260,5 +280,51 @@ var fnSpecs = []groupSpec{
 		},
 		Skip: []string{`if !list.sorted { panic("list is not sorted") }`, "addr = to6(addr)"},
 		Doc:  "; `e` = list.e as (base, bits) over 128-bit addresses, `addr` = to6(addr) as a number, `valid` = addr.IsValid(); `int(uint(i+j) >> 1)` is (i+j)/2 for the non-negative i, j of the loop; the `sorted` panic is a precondition",
+	}},
+	// ---------------------------------------------------------------- C12: normalisation of names and rules
+	{Group: "Domain", fnSpec: fnSpec{
+		File: "pkg/matcher/domain/utils.go", Func: "NormalizeDomain",
+		Lean: "normalizeDomain", Params: "(toLower : Bytes → Bytes) (s : Bytes)", Ret: "Bytes",
+		Vars: map[string]ty{"s": tBytes},
+		Expr: map[string]lx{"strings.ToLower(TrimDot(s))": by("(toLower (trimDot s))")},
+		Doc:  "; `strings.ToLower` is a parameter (Refine.C12 instantiates it with byte-wise ASCII lower-casing), `TrimDot` is the regenerated `trimDot`; any other body (a hand-written loop, another library call) is translated as written or refused",
+	}},
+	// ---------------------------------------------------------------- C13: what the two text loaders hand to List.Append
+	{Group: "Netlist", fnSpec: fnSpec{
+		File: "pkg/matcher/netlist/load_helper.go", Func: "LoadFromText",
+		Lean: "loadFromTextPrefix", Params: "(hasSlash : Bool) (parsedPrefix : Option ((Bool × Nat) × Int)) (parsedAddr : Option (Bool × Nat))", Ret: "Option ((Bool × Nat) × Int)",
+		Expr: map[string]lx{
+			"strings.ContainsRune(s, '/')": b("hasSlash"),
+			"addr.Is6()":                   b("addr.1"),
+		},
+		Stmt: map[string]string{
+			"ipNet, err := netip.ParsePrefix(s)":     "match parsedPrefix with\n| none => none\n| some ipNet =>",
+			"l.Append(ipNet)":                        "return some ipNet",
+			"addr, err := netip.ParseAddr(s)":        "match parsedAddr with\n| none => none\n| some addr =>",
+			"l.Append(netip.PrefixFrom(addr, bits))": "return some (addr, bits)",
+		},
+		StmtVars: map[string]map[string]ty{
+			"ipNet, err := netip.ParsePrefix(s)": {"ipNet": tAny},
+			"addr, err := netip.ParseAddr(s)":    {"addr": tAny},
+		},
+		Skip: []string{"if err != nil { return err }"},
+		Doc:  "; result = the prefix (address, length) handed to l.Append, none = the parse error is returned (the skipped `if err != nil`); an address is (Is6() - the 16-byte form, IPv4-mapped included -, its value); `parsedPrefix` / `parsedAddr` = what netip.ParsePrefix(s) / netip.ParseAddr(s) yield",
+	}},
+	{Group: "Netlist", fnSpec: fnSpec{
+		File: "plugin/data_provider/ip_set/ip_set.go", Func: "parseNetipPrefix",
+		Lean: "ipSetParsePrefix", Params: "(hasSlash : Bool) (parsedPrefix : Option ((Bool × Nat) × Int)) (parsedAddr : Option (Bool × Nat))", Ret: "Option ((Bool × Nat) × Int)",
+		Expr: map[string]lx{
+			"strings.ContainsRune(s, '/')": b("hasSlash"),
+		},
+		Stmt: map[string]string{
+			"return netip.ParsePrefix(s)":       "return parsedPrefix",
+			"addr, err := netip.ParseAddr(s)":   "match parsedAddr with\n| none => none\n| some addr =>",
+			"return addr.Prefix(addr.BitLen())": "return some (addr, (if addr.1 then (128 : Int) else (32 : Int)))",
+		},
+		StmtVars: map[string]map[string]ty{
+			"addr, err := netip.ParseAddr(s)": {"addr": tAny},
+		},
+		Skip: []string{"if err != nil { return netip.Prefix{}, err }"},
+		Doc:  "; result = the prefix (address, length) LoadFromIPs hands to l.Append, none = error; `addr.BitLen()` is 128 for the 16-byte form (IPv4-mapped included) and 32 for the 4-byte form, and `addr.Prefix(addr.BitLen())` masks nothing",
 	}},
 }
